@@ -461,11 +461,26 @@ class Model(CallsMixin, BuiltinsMixin):
             out.nonneg = True
         if sym == '**' and b.has_const() and b.c in (2, 2.0):
             out.nonneg = True
+            if a.k == 'arr':
+                # scale of the squared operand: a power-of-two ledger (or a
+                # division by its own norm / sum) means the entries are
+                # bounded; a pivot core that carries the whole norm of the
+                # tensor and has no ledger overflows when squared
+                stab = a.lg is not None and any(
+                    'core_stab' in repr(t) for t in a.lg.t)
+                raw = a.lg is not None and not a.lg.t and \
+                    a.note != 'unitscale'
+                self.site('U-square', node,
+                          'ok' if (stab or a.note == 'unitscale') else
+                          'unknown', 'raw' if raw else '',
+                          {'lg': a.lg, 'note': a.note})
         if sym == '/' and a.nonneg and (b.nonneg):
             out.nonneg = True
         if sym == '/' and b.note == 'sum' and b.src is a:
             out.normed = True
             out.nonneg = a.nonneg
+        if sym == '/' and b.note == 'norm' and b.src is a:
+            out.note = 'unitscale'
         return out
 
     def lo_of(self, v):
@@ -680,6 +695,16 @@ class Model(CallsMixin, BuiltinsMixin):
         ua, ub = a.unit, b.unit
         if a.has_const() or b.has_const():
             return
+        # power-of-two scale of both sides (stabilised routines): a threshold
+        # must be expressed at the scale of the quantity it is compared with
+        if a.lg is not None and b.lg is not None:
+            if a.lg == b.lg:
+                self.site('U-cmp-lg', node, 'ok', '', {'lg': a.lg})
+            else:
+                self.site('U-cmp-lg', node, 'violation',
+                          'a quantity stored at scale 2**(%s) is compared with '
+                          'one stored at scale 2**(%s)' % (a.lg, b.lg),
+                          {'lhs': a.lg, 'rhs': b.lg})
         if ua is None or ub is None:
             if (ua is not None or ub is not None) and \
                     not (self._plain(a) or self._plain(b)):
@@ -814,6 +839,7 @@ class Model(CallsMixin, BuiltinsMixin):
         adv_pos = None
         ax = 0
         advanced = False
+        axmap = {}        # input axis -> output axis (full slices only)
         for c in comps:
             if c.k == 'none':
                 out.append(ONE)
@@ -832,6 +858,8 @@ class Model(CallsMixin, BuiltinsMixin):
                 ax += 1
                 continue
             if c.k == 'slice':
+                if all(x is None or x.k == 'none' for x in c.items):
+                    axmap[ax] = len(out)
                 out.append(self.slice_len(c, d, node))
                 out_lay.append(lay[ax] if lay is not None and
                                all(x is None or x.k == 'none'
@@ -885,6 +913,7 @@ class Model(CallsMixin, BuiltinsMixin):
             # unknown component
             return ARR(None, base.dt, org=base.org, taint=base.taint)
         while ax < len(dims):
+            axmap[ax] = len(out)
             out.append(dims[ax])
             out_lay.append(lay[ax] if lay is not None else None)
             ax += 1
@@ -906,6 +935,9 @@ class Model(CallsMixin, BuiltinsMixin):
         r.unit = base.unit
         r.deg = base.deg
         r.nonneg = base.nonneg
+        if isinstance(base.delta, tuple) and not adv and \
+                base.delta[0] in axmap and base.delta[1] in axmap:
+            r.delta = (axmap[base.delta[0]], axmap[base.delta[1]])
         if out_lay is not None and any(x is not None for x in out_lay):
             r.lay = tuple(out_lay)
         if not advanced:
